@@ -55,4 +55,10 @@ META = {
   text="Generated search over sharing configurations and interleavings (steps, reorg deletions, restarts); every commit is attributed to the stepping pair and must touch only that pair's stamps, and each pair's rows must equal its own projection at quiescence.",
   note="Trusted: fakepg commit records (rows added/removed per commit with their stamps), sim node, projection model.",
  ),
+ "C02": dict(
+  design_ref="DESIGN.md §5 C02",
+  technique="exhaustive single-fault enumeration over recorded I/O operations of fixed step scenarios + rapid multi-fault histories; invariant evaluated inside the fake Postgres commit hook",
+  text="Every I/O operation of ten representative step scenarios is failed once in each of five ways (about 750 fault points, complete for those scenarios), and random multi-fault histories add breadth; the atomicity invariant is evaluated in every committed state, in the state left by the failure, after process restart, and the retry must converge to the fault-free result.",
+  note="Trusted: fakepg transaction semantics (overlay per connection, atomic commit under one mutex, rollback on disconnect), sim node fault injection, projection model.",
+ ),
 }
